@@ -32,13 +32,39 @@ template <class G> void run(size_t n, const std::vector<std::string> &ops) {
     }
     fflush(stdout);
 }
-// WF DW|UW hex <n> : ops
+// ---- Dijkstra with arbitrary double weights: distances as IEEE bit patterns, predecessors, the pop sequence (counting graph type) ----
+#include "BaseGraph/algorithms/paths.hpp"
+template <class W> struct CountWF : W {
+    explicit CountWF(size_t n = 0) : W(n) {}
+    mutable std::vector<VertexIndex> scans;
+    const Successors &getOutNeighbours(VertexIndex v) const { scans.push_back(v); return W::getOutNeighbours(v); }
+};
+template <class G> void runDj(size_t n, const std::vector<std::string> &ops, unsigned src) {
+    CountWF<G> g(n);
+    for (auto &op : ops) { std::istringstream is(op); std::string k, h; long i = 0, j = 0; is >> k >> i >> j >> h; if (k == "FA") guard([&]() -> Z { static_cast<G &>(g).addEdge(i, j, dblOfHex(h)); return 0; }); }
+    std::string line = "I";
+    Z code = guard([&]() -> Z {
+        g.scans.clear(); auto r = BaseGraph::algorithms::findGeodesicsDijkstra(g, src);
+        for (auto d : r.first) { unsigned long long b; std::memcpy(&b, &d, 8); line += ' '; line += std::to_string(b); }
+        line += " |"; for (auto p : r.second) { line += ' '; line += std::to_string(p == BaseGraph::algorithms::BASEGRAPH_VERTEX_MAX ? 4294967295ULL : (unsigned long long)p); }
+        line += " | " + std::to_string(g.scans.size()) + " |"; for (auto v : g.scans) { line += ' '; line += std::to_string(v); }
+        return 0; });
+    if (code != 0) line = "I " + std::to_string(code);
+    line += '\n'; fputs(line.c_str(), stdout); fflush(stdout);
+}
+// WF DW|UW hex <n> : ops          DJF DW|UW hex <n> : FA i j <hex> ; ... | source
 int main() {
     std::string line;
     while (std::getline(std::cin, line)) {
         auto c = line.find(':'); if (c == std::string::npos) continue;
         std::istringstream hd(line.substr(0, c)); std::string kind, cls, lk; size_t n; hd >> kind >> cls >> lk >> n;
         fputs(("CASE " + line + "\n").c_str(), stdout); fflush(stdout);
+        if (kind == "DJF") {
+            std::string body = line.substr(c + 1); auto bar = body.find('|');
+            auto ops = splitOps(body.substr(0, bar)); unsigned src = 0; { std::istringstream q(bar == std::string::npos ? "" : body.substr(bar + 1)); q >> src; }
+            if (cls == "DW") runDj<DirectedWeightedGraph>(n, ops, src); else runDj<UndirectedWeightedGraph>(n, ops, src);
+            continue;
+        }
         auto ops = splitOps(line.substr(c + 1));
         if (cls == "DW") run<DirectedWeightedGraph>(n, ops); else run<UndirectedWeightedGraph>(n, ops);
     }
